@@ -91,8 +91,8 @@ class Gen:
         return w
 
     # ---------------------------------------------------------------- flats in a mode relative to a frame
-    MODES = ['free', 'on_line', 'in_plane', 'through_o', 'parallel']
-    WEIGHTS = [10, 32, 24, 20, 14]
+    MODES = ['free', 'on_line', 'in_plane', 'through_o', 'parallel', 'at_o']
+    WEIGHTS = [10, 28, 22, 18, 12, 10]
 
     def flat(self, kind, fr, mode):
         R = self.R
@@ -119,6 +119,10 @@ class Gen:
             p = self.pt()
             d = mul(self.scale(), fr['d'])
             q = add(p, mul(R.choice([F(1), F(2), F(-1), F(1, 2)]), fr['d']))
+        elif mode == 'at_o':      # starts / ends exactly at the frame point, along the frame line (back-to-back, end-to-end)
+            p = fr['o']
+            d = mul(self.scale(), fr['d'])
+            q = add(p, mul(R.choice([F(1), F(2), F(-1), F(-1, 2), F(3)]), fr['d']))
         else:
             raise ValueError(mode)
         if kind == 'P':
@@ -130,7 +134,7 @@ class Gen:
         if kind == 'S':
             if q == p:
                 q = add(p, d)
-            if mode in ('on_line', 'parallel') or (mode == 'through_o' and par(sub(q, p), d)) or mode == 'in_plane' or mode == 'free':
+            if mode in ('on_line', 'parallel', 'at_o') or (mode == 'through_o' and par(sub(q, p), d)) or mode == 'in_plane' or mode == 'free':
                 return ('S', p, q)
             return ('S', p, add(p, d))
         if kind == 'PL':
@@ -145,6 +149,8 @@ class Gen:
                 return ('PL', p, mul(self.scale(), fr['n']))
             if mode == 'through_o':
                 return ('PL', fr['o'], d)
+            if mode == 'at_o':        # plane through the frame point, normal along the frame line (perpendicular to it)
+                return ('PL', fr['o'], d)
             if mode == 'parallel':    # parallel to the frame plane, or to the frame line
                 if R.random() < 0.5:
                     return ('PL', p, mul(self.scale(), fr['n']))
@@ -158,7 +164,25 @@ class Gen:
         fr = self.frame()
         ma = self.R.choices(self.MODES, self.WEIGHTS)[0]
         mb = self.R.choices(self.MODES, self.WEIGHTS)[0]
-        return self.flat(ka, fr, ma), self.flat(kb, fr, mb), ma + '/' + mb
+        A, B = self.flat(ka, fr, ma), self.flat(kb, fr, mb)
+        cls = ma + '/' + mb
+        pc = 0.15
+        if A[0] == 'PL' and B[0] == 'PL' and par(A[2], B[2]):
+            pc = 0.6          # parallel planes: mirror images through the origin are a classic special case
+        if self.R.random() < pc:
+            A, B = self.centre(A, B)
+            cls += '+centred'
+        return A, B, cls
+
+    def centre(self, A, B):
+        """translate both operands so that the origin is the midpoint of their base points (origin-symmetric
+        configurations: mirror-image parallel planes, offsets d and -d, ...); keeps denominators <= 4 when possible"""
+        pa, pb = A[1], B[1]
+        m = tuple((x + y) / 2 for x, y in zip(pa, pb))
+        if any(c.denominator > 8 for c in m):
+            m = pa
+        t = neg(m)
+        return translate_obj(A, t), translate_obj(B, t)
 
     # ---------------------------------------------------------------- bodies
     def polygon(self, nmin=3, nmax=6, fr=None):
@@ -167,8 +191,13 @@ class Gen:
         for _ in range(1000):
             if fr is None:
                 o = self.ipt(-3, 3)
-                u = self.ipt(-2, 2)
-                v = self.ipt(-2, 2)
+                if R.random() < 0.25:      # axis-aligned carrier plane (x, y or z constant): axis-specific code paths
+                    ax = R.sample(range(3), 2)
+                    u = tuple(F(R.choice([1, 2, -1])) if t == ax[0] else F(0) for t in range(3))
+                    v = tuple(F(R.choice([1, 2, -1])) if t == ax[1] else F(0) for t in range(3))
+                else:
+                    u = self.ipt(-2, 2)
+                    v = self.ipt(-2, 2)
             else:
                 o, u, v = fr['o'], fr['d'], fr.get('v') or self._wred(fr)
             if is0(cross(u, v)):
@@ -346,6 +375,21 @@ class Gen:
 
 def par(u, v):
     return is0(cross(u, v))
+
+
+def translate_obj(o, t):
+    k = o[0]
+    if k == 'P':
+        return ('P', add(o[1], t))
+    if k in ('L', 'PL', 'H'):
+        return (k, add(o[1], t), o[2])
+    if k == 'S':
+        return ('S', add(o[1], t), add(o[2], t))
+    if k == 'G':
+        return ('G', [add(p, t) for p in o[1]])
+    if k == 'B':
+        return ('B', [[add(p, t) for p in f] for f in o[1]])
+    return o
 
 
 # -------------------------------------------------------------------- protocol rendering
